@@ -1,3 +1,5 @@
+//go:build !no_c13a
+
 package props
 
 import (
